@@ -173,10 +173,8 @@ def _chunk(args):
     col = core.Collector()
     for ln in lines:
         t = json.loads(ln)
-        if kind == "pick":
-            check_pick(col, cfgname, t)
-        else:
-            check_decomp(col, cfgname, t)
+        core.guarded(col, lambda: (check_pick if kind == "pick" else check_decomp)(col, cfgname, t), kind, f"case {t}"[:600],
+                     {"config": cfgname, "kind": kind, "transition": t})
         col.traces += 1
     return col
 
